@@ -46,6 +46,8 @@ class Sched(object):
     self.p_lock = None        # pre-emption probability at lock release
     self.file_p = {}          # file-id -> pre-emption probability override
     self.hot = {}             # (file-id, line) -> pre-emption probability override
+    self.opcode_fids = set()  # file-ids traced at bytecode granularity
+    self.p_opcode = None
     self.tsteps = {}          # thread -> line steps executed
     self.trigger = None       # (thread, its step count, thread to hand the baton to)
     self.trigger_fired = False
@@ -104,11 +106,24 @@ class Sched(object):
 
   # ---- tracing ---------------------------------------------------------------
   def _gtrace(self, frame, event, arg):
-    if frame.f_code.co_filename in self.fids:
+    fid = self.fids.get(frame.f_code.co_filename)
+    if fid is not None:
+      if fid in self.opcode_fids:
+        frame.f_trace_opcodes = True     # pre-emption between bytecodes, not only lines
       return self._ltrace
     return None
 
   def _ltrace(self, frame, event, arg):
+    if event == 'opcode':
+      # sub-line pre-emption point (e.g. between the read and the write of `x -= n`)
+      self.steps += 1
+      if self.steps > self.STEP_CAP:
+        self.finish('stepcap')
+      fid = self.fids[frame.f_code.co_filename]
+      lid = frame.f_lineno * 1000 + (frame.f_lasti % 1000)
+      if self.ctx.ch.preempt(self.cur, fid + 'o', lid, self.p_opcode):
+        self._preempt(fid + 'o', lid)
+      return self._ltrace
     if event == 'line':
       self.steps += 1
       if self.steps > self.STEP_CAP:
